@@ -18,7 +18,12 @@ class FaultSim(mosaik_api_v3.Simulator):
         with open(self.logfile, "a") as f:
             f.write(f"{what} {self.sid} {os.getpid()}\n")
 
-    def init(self, sid, time_resolution=1.0, logfile=None, fault=None, **kw):
+    def init(self, sid, time_resolution=1.0, logfile=None, fault=None, api=None, **kw):
+        if api:
+            # an older simulator: mosaik wraps it in adapters (V3ToV2Adapter, below 2.2 also V2ToV1Adapter)
+            self.meta = dict(META, api_version=api)
+            if api.split(".")[0] != "3":
+                self.meta.pop("type", None)
         self.sid = sid
         self.logfile = logfile
         self.fault = fault          # {"index": k, "kind": "raise"|"exit"} or None
@@ -41,7 +46,7 @@ class FaultSim(mosaik_api_v3.Simulator):
     def setup_done(self):
         self._request("setup_done")
 
-    def step(self, time, inputs, max_advance):
+    def step(self, time, inputs, max_advance=None):
         self._request("step")
         return time + 1
 
